@@ -574,6 +574,8 @@ pub struct RunOpts {
     pub default_queue: bool,
     /// stepped runs: after every step try add_event(sim_time() - 1 ns), which must be rejected
     pub paused_past_probes: bool,
+    /// stepped runs: call finish() right after the last step (no dispatch_all in between)
+    pub finish_after_steps: bool,
 }
 
 pub fn real_run(prog: &Program, mode: Mode<'_>, opts: &RunOpts) -> Outcome {
@@ -670,7 +672,9 @@ pub fn real_run(prog: &Program, mode: Mode<'_>, opts: &RunOpts) -> Outcome {
                     });
                 }
                 arm_scan_budget();
-                rt.dispatch_all();
+                if !opts.finish_after_steps {
+                    rt.dispatch_all();
+                }
                 rt.finish()
             }
         };
